@@ -1165,9 +1165,9 @@ func main() {
 		"validator commission/current-reward split inside x/distribution is not modelled; outstanding rewards are")
 
 	nIsoWorlds := run.N(16, 64)
-	nIso := run.N(20000, 2000000)
+	nIso := run.N(40000, 2000000)
 	nFullWorlds := run.N(16, 160)
-	nFullBlocks := run.N(125, 625)
+	nFullBlocks := run.N(200, 625)
 
 	if run.ReplayCase != nil {
 		var c struct {
